@@ -173,6 +173,7 @@ type eff struct {
 	KeyIsP  int    // parameter index of the key (-1)
 	ValKind string // const | other
 	Detail  string
+	MapType string // for mapset: the map's type
 	Pos     token.Pos
 }
 
@@ -275,7 +276,7 @@ func (e *ordEngine) instrEffects(in ssa.Instruction, depth int) []eff {
 			kp = kr.Idx
 			_ = pa
 		}
-		out = append(out, eff{Root: r, Kind: "mapset", KeyRoot: kr, KeyIsP: kp, ValKind: vk, Detail: core.Canon(x.Map), Pos: x.Pos()})
+		out = append(out, eff{Root: r, Kind: "mapset", KeyRoot: kr, KeyIsP: kp, ValKind: vk, Detail: core.Canon(x.Map), MapType: x.Map.Type().String(), Pos: x.Pos()})
 	case *ssa.Send:
 		out = append(out, eff{Root: root{Kind: "ext", Name: "channel send"}, Kind: "ext", Detail: "channel send", Pos: x.Pos(), KeyIsP: -1})
 	case *ssa.Go:
@@ -872,7 +873,7 @@ func memoFill(in ssa.Instruction, ef eff) bool {
 	}
 	// the callee consults the same map with the same key before computing (memo discipline)
 	ok2, _ := detMemo2(callee)
-	return ok2 && strings.Contains(ef.Detail, "Cache")
+	return ok2 && ef.Kind == "mapset"
 }
 
 // resetBeforeUse: the written variable is assigned a fresh value at the start of each iteration
